@@ -14,8 +14,8 @@ package snapshot
 // not atomic (a file write or copy cut after any number of bytes, a recursive removal after any
 // subset of the entries, see fsmodel.go) -, starts the node again - optionally dying again - and
 // finally lets a start run to its end. The oracle is the property text; in addition, whenever the
-// process has died the newest original snapshot must still be on disk in one of the formats (the
-// old directory goes away only when the new one is complete).
+// process has died a whole copy of the newest original snapshot must still be on disk (in an old
+// directory, or in the new one - in place or still under construction).
 //
 //   VerifC08Upgrade8To10   v8 directory (1..2 snapshots), Upgrade8To10 + store check
 //   VerifC08FromV7         v7 directory (1..2 snapshots), the whole start sequence
@@ -334,13 +334,15 @@ func vUpgradeScenario(w vUp, withV7 bool, modes []int, lean bool, orig vOrig) {
 }
 
 // VerifC08Upgrade8To10: v8 directory; the process dies at every crash point of the start, before
-// the call or inside it; the restarted start dies at every crash point (or none).
+// the call or inside it; the restarted start dies at every crash point (or none). The scenarios
+// ("deep" chooses among them):
 //   quick:    two-snapshot shapes: first crash before/inside the call (thin), a second crash
 //             (before the call) only after a first crash before the call;
-//             one-snapshot shape: both crashes before/inside the call (thin), or ("deep") three
+//             one-snapshot shape: two crashes, each before/inside the call (thin); or three
 //             crashes before the call
-//   thorough: every shape: first crash before/inside the call (every cut, every subset), second
-//             before/inside (thin); or three crashes before the call
+//   thorough: every shape: one crash before/inside the call (every cut position, every subset of a
+//             removal); or two crashes, each before/inside the call (thin); or three crashes
+//             before the call
 func VerifC08Upgrade8To10() {
 	verifPanicsAreViolations()
 	root := vNewRoot("r")
@@ -348,21 +350,38 @@ func VerifC08Upgrade8To10() {
 	w := vUpDirs(root)
 	shapeNo := verifChoice("shape", len(vOldShapes))
 	orig := vBuildV8(w, vOldShapes[shapeNo])
-	modes := []int{vPartThin, vPartNone}
-	if verifTier() > 0 || shapeNo == 0 {
-		modes = []int{vPartThin, vPartThin}
-		if verifTier() > 0 {
-			modes = []int{vPartFull, vPartThin}
+	var modes []int
+	lean := false
+	if verifTier() == 0 {
+		switch {
+		case shapeNo > 0:
+			modes, lean = []int{vPartThin, vPartNone}, true
+		case verifChoice("deep", 2) == 0:
+			modes = []int{vPartThin, vPartThin}
+		default:
+			modes = []int{vPartNone, vPartNone, vPartNone}
 		}
-		if verifChoice("deep", 2) == 1 {
+	} else {
+		switch verifChoice("deep", 3) {
+		case 0:
+			modes = []int{vPartFull}
+		case 1:
+			modes = []int{vPartThin, vPartThin}
+		default:
 			modes = []int{vPartNone, vPartNone, vPartNone}
 		}
 	}
 	vPTSName, vPTSShape, vPTSEmpty, vPTSWithout = "VerifC08Upgrade8To10", shapeNo, false, false
-	vUpgradeScenario(w, false, modes, verifTier() == 0 && shapeNo > 0, orig)
+	vUpgradeScenario(w, false, modes, lean, orig)
 }
 
 // VerifC08FromV7: v7 directory, the whole start sequence (7 -> 8 -> 10 -> store check).
+//   quick:    first crash before/inside the call (thin), a second crash (before the call) only
+//             after a first crash before the call
+//   thorough: every variant of the old directory: one crash before/inside the call (every cut
+//             position, every subset of a removal); or two crashes, the first before/inside the
+//             call (thin), the second before the call - for the plain variants (database data
+//             present, every snapshot with its state file) also inside it (thin)
 func VerifC08FromV7() {
 	verifPanicsAreViolations()
 	root := vNewRoot("r")
@@ -380,11 +399,17 @@ func VerifC08FromV7() {
 	}
 	orig := vBuildV7(w, vOldShapes[shapeNo], emptyState, olderWithoutState)
 	vPTSName, vPTSShape, vPTSEmpty, vPTSWithout = "VerifC08FromV7", shapeNo, emptyState, olderWithoutState
-	modes := []int{vPartThin, vPartNone}
+	modes, lean := []int{vPartThin, vPartNone}, true
 	if verifTier() > 0 {
-		modes = []int{vPartFull, vPartThin}
+		lean = false
+		switch {
+		case verifChoice("deep", 2) == 0:
+			modes = []int{vPartFull}
+		case !emptyState && !olderWithoutState:
+			modes = []int{vPartThin, vPartThin}
+		}
 	}
-	vUpgradeScenario(w, true, modes, verifTier() == 0, orig)
+	vUpgradeScenario(w, true, modes, lean, orig)
 }
 
 // VerifC08Twin (must be violated): the same scenario, but the node is not started again after
